@@ -96,28 +96,32 @@ type Violation struct {
 }
 
 type PathState struct {
-	prefix    []Decision
-	pos       int
-	decisions []Decision
-	pc        []*Term
-	sent      int
-	known     map[*Term]bool
-	nondet    []NondetRec
-	fresh     int
-	steps     int
-	depth     int
-	obs       []string
-	events    []Value
-	started   time.Time
-	pbTokens  []*pbToken
-	pbArrays  map[*Array]*pbToken
-	tsTokens  map[*Term]Value
-	timeParts map[*Term]*tparts
-	sqlFiles  map[string]*sqlDB
-	lazy      map[*Term]*lazyDef
-	lazySeen  map[*Term]bool
-	debug     []debugRec
-	uuidCtr   int
+	prefix     []Decision
+	pos        int
+	decisions  []Decision
+	pc         []*Term
+	sent       int
+	known      map[*Term]bool
+	nondet     []NondetRec
+	fresh      int
+	steps      int
+	depth      int
+	obs        []string
+	events     []Value
+	started    time.Time
+	pbTokens   []*pbToken
+	pbArrays   map[*Array]*pbToken
+	tsTokens   map[*Term]Value
+	timeParts  map[*Term]*tparts
+	sqlFiles   map[string]*sqlDB
+	lazy       map[*Term]*lazyDef
+	lazySeen   map[*Term]bool
+	debug      []debugRec
+	crashK     int64
+	crashArmed bool
+	crashLeft  int64
+	stash      map[string]Value
+	uuidCtr    int
 }
 
 // Results aggregates over all paths of one harness run (shared by workers).
